@@ -18,6 +18,16 @@ FLOORS = {
               "discrete_outputs_compared": 120},
     "thorough": {"distinct_nontrivial": 5000, "scorer_pairs": 15000, "detector_pairs": 8000},
 }
+ANCHORS = [
+    "skchange.change_scores.cusum.cusum_score",
+    "skchange.costs.l2_cost.l2_cost_optim",
+    "skchange.costs.gaussian_var_cost.gaussian_var_cost_optim",
+    "skchange.costs.gaussian_cov_cost.gaussian_cov_cost_optim",
+    "skchange.anomaly_detectors.mvcapa.penalise_savings",
+    "skchange.anomaly_detectors.mvcapa.find_affected_components",
+    "skchange.change_detectors.moving_window.moving_window_transform",
+    "skchange.change_detectors.pelt.run_pelt",
+]
 LEVEL = "exploration"
 RULE = (
     "metamorphic pairs (X, T(X)) for T in {column permutation, per-column shift, positive scaling, "
